@@ -23,6 +23,11 @@ func gen(c *hmain.Ctx) {
 		c.Do("stale-unblock-sync", 0, pipedrv.StaleUnblock(1, procs), true)
 	}
 	var jobs []*pipedrv.Job
+	// effect-based probe for "no processor asleep while work is queued": a stream charged at the same
+	// instant as a continuously fed one must be served within the bound although the other never runs dry
+	for i := 0; i < 12*c.Scale; i++ {
+		jobs = append(jobs, &pipedrv.Job{Stream: "starvation-probe", Case: pipedrv.Starvation(2+2*(i%2), 2500, 1200)})
+	}
 	add := func(stream string, o pipedrv.Opts, n int) {
 		for i := 0; i < n*c.Scale; i++ {
 			jobs = append(jobs, &pipedrv.Job{Stream: stream, Case: pipedrv.GenCase(c.R, o)})
